@@ -256,7 +256,106 @@ func (iv *Intervals) refine(base Interval, v ssa.Value, g Guard) Interval {
 		}
 		base = iv.refineCmp(base, k, g.If)
 	}
+	// a bound tested by a predicate of the package — if invalidLen(v) { return }:
+	// on the edge where the predicate said b, v lies in the set of arguments for
+	// which the predicate can say b
+	if want, isB := ConstBool(c.Y); isB && c.Op == token.EQL {
+		if call, ok := c.X.(*ssa.Call); ok {
+			h := call.Common().StaticCallee()
+			if h != nil && len(h.Blocks) > 0 && h.Pkg != nil && call.Parent() != nil && h.Pkg == call.Parent().Pkg && len(call.Common().Args) == len(h.Params) {
+				for i, a := range call.Common().Args {
+					if iv.same(a, v) {
+						if dom, ok := iv.predicateDomain(h, i, want); ok {
+							base = base.Meet(dom)
+						}
+					}
+				}
+			}
+		}
+	}
 	return base
+}
+
+// predicateDomain: an interval containing every value of integer parameter i
+// of the bool function h for which h can return want (other parameters
+// unconstrained); ok=false if h is not a bool function or is being analysed.
+func (iv *Intervals) predicateDomain(h *ssa.Function, i int, want bool) (Interval, bool) {
+	if h.Signature.Results().Len() != 1 || i >= len(h.Params) || iv.sumBusy[h] {
+		return Interval{}, false
+	}
+	if b, ok := h.Signature.Results().At(0).Type().Underlying().(*types.Basic); !ok || b.Kind() != types.Bool {
+		return Interval{}, false
+	}
+	p := h.Params[i]
+	if b, ok := p.Type().Underlying().(*types.Basic); !ok || b.Info()&types.IsInteger == 0 {
+		return Interval{}, false
+	}
+	iv.sumBusy[h] = true
+	saved := iv.inprog
+	iv.inprog = map[ssa.Value]bool{}
+	defer func() { iv.inprog = saved; delete(iv.sumBusy, h) }()
+	out := Interval{1, 0}
+	// the values of p for which bool value x (used at instruction at) may be want
+	var may func(x ssa.Value, at ssa.Instruction, d int) Interval
+	may = func(x ssa.Value, at ssa.Instruction, d int) Interval {
+		here := iv.At(p, at)
+		if d > 8 {
+			return here
+		}
+		switch t := x.(type) {
+		case *ssa.Const:
+			if b, ok := ConstBool(t); ok && b != want {
+				return Interval{1, 0}
+			}
+			return here
+		case *ssa.UnOp:
+			if t.Op == token.NOT {
+				// !y is want where y is !want: evaluate with the roles exchanged
+				want = !want
+				r := may(t.X, at, d+1)
+				want = !want
+				return r
+			}
+		case *ssa.BinOp:
+			op := t.Op
+			switch op {
+			case token.EQL, token.NEQ, token.LSS, token.LEQ, token.GTR, token.GEQ:
+				if !want {
+					op = negate(op)
+				}
+				for _, k := range []Cmp{{Op: op, X: t.X, Y: t.Y}, (Cmp{Op: op, X: t.X, Y: t.Y}).Swap()} {
+					if iv.same(k.X, p) {
+						here = iv.refineCmp(here, k, at)
+					}
+				}
+				return here
+			}
+		case *ssa.Phi:
+			r := Interval{1, 0}
+			for k, e := range t.Edges {
+				pred := t.Block().Preds[k]
+				last := pred.Instrs[len(pred.Instrs)-1]
+				ei := may(e, last, d+1)
+				if iff, ok := last.(*ssa.If); ok && pred.Succs[0] != pred.Succs[1] {
+					ei = ei.Meet(iv.refine(iv.At(p, last), p, Guard{If: iff, Branch: pred.Succs[0] == t.Block()}))
+				}
+				r = r.Join(ei)
+			}
+			return r
+		}
+		return here
+	}
+	for _, r := range Returns(h) {
+		if len(r.Results) != 1 {
+			return Interval{}, false
+		}
+		out = out.Join(may(r.Results[0], r, 0))
+	}
+	if out.Empty() {
+		// the predicate never says want: the edge is dead; leave the value alone
+		return Interval{}, false
+	}
+	return out, true
 }
 
 // refineCmp narrows base (the interval of k.X) by "k.X op k.Y".
@@ -555,11 +654,53 @@ func (iv *Intervals) lenDef(s ssa.Value, at ssa.Instruction, isCap bool) Interva
 				}
 			}
 		}
+	case *ssa.Extract:
+		if c, ok := x.Tuple.(*ssa.Call); ok && !isCap {
+			if r, ok := iv.lenOfResult(c, x.Index); ok {
+				return r
+			}
+		}
+	case *ssa.Call:
+		if !isCap {
+			if r, ok := iv.lenOfResult(x, 0); ok {
+				return r
+			}
+		}
 	}
 	if n, ok := arrayLen(s.Type()); ok {
 		return Interval{n, n}
 	}
 	return nonneg
+}
+
+// lenOfResult: the length of result idx of a call of a function with a body,
+// as the join over all its returns (its parameters unconstrained): a helper
+// that cuts a slice to a maximum keeps that bound at its call sites.
+func (iv *Intervals) lenOfResult(c *ssa.Call, idx int) (Interval, bool) {
+	callee := c.Common().StaticCallee()
+	if callee == nil || len(callee.Blocks) == 0 || iv.sumBusy[callee] {
+		return Interval{}, false
+	}
+	if callee.Pkg == nil || c.Parent() == nil || callee.Pkg != c.Parent().Pkg {
+		return Interval{}, false
+	}
+	iv.sumBusy[callee] = true
+	saved := iv.inprog
+	iv.inprog = map[ssa.Value]bool{}
+	out := Interval{1, 0}
+	for _, r := range Returns(callee) {
+		if idx >= len(r.Results) {
+			out = Interval{0, PosInf}
+			break
+		}
+		out = out.Join(iv.lenOf(RetVal(r, idx), r, false))
+	}
+	iv.inprog = saved
+	delete(iv.sumBusy, callee)
+	if out.Empty() {
+		return Interval{}, false
+	}
+	return out.Meet(Interval{0, PosInf}), true
 }
 
 func arrayLen(t types.Type) (int64, bool) {
